@@ -150,7 +150,8 @@ pub fn check_mutators(maxn: usize) -> (usize, usize, Vec<PFail>) {
     // (1) every mutator with every index from 0 to n+2, directly and inside a transaction; out of range must panic
     //     without changing the contents or notifying anyone
     for n in 0..=maxn {
-        for tx in [false, true] {
+        for (tx, grow) in [(false, false), (true, false), (true, true)] {
+            // grow: the transaction first appends two items, so that indices beyond the pre-transaction length are in range
             for opk in 0..11usize {
                 let idxs: Vec<usize> = if (6..=9).contains(&opk) { (0..=n + 2).collect() } else { vec![0] };
                 for i in idxs {
@@ -162,6 +163,10 @@ pub fn check_mutators(maxn: usize) -> (usize, usize, Vec<PFail>) {
                     let nv = It::new(50);
                     // reference: (new contents, returned value) or None = panic
                     let mut v = s.clone();
+                    if grow {
+                        v.push(60);
+                        v.push(61);
+                    }
                     let mut ret: Option<Option<u32>> = Some(None);
                     let mut panics = false;
                     let name;
@@ -230,7 +235,7 @@ pub fn check_mutators(maxn: usize) -> (usize, usize, Vec<PFail>) {
                         }
                     }
                     kinds.insert((name, tx, panics, n == 0));
-                    let inp = serde_json::json!({"kind": "mutators", "vector_len": n, "op": name, "index": i, "in_transaction": tx});
+                    let inp = serde_json::json!({"kind": "mutators", "vector_len": n, "op": name, "index": i, "in_transaction": tx, "transaction_appends_two_items_first": grow});
                     let r = catch_unwind(AssertUnwindSafe(|| -> (Option<u32>, Vec<u32>) {
                         macro_rules! go {
                             ($t:expr) => {{
@@ -275,6 +280,10 @@ pub fn check_mutators(maxn: usize) -> (usize, usize, Vec<PFail>) {
                         }
                         if tx {
                             let mut t = ob.transaction();
+                            if grow {
+                                t.push_back(It::new(60));
+                                t.push_back(It::new(61));
+                            }
                             let r = go!(&mut t);
                             let c = ids(&t);
                             t.commit();
